@@ -402,7 +402,7 @@ def run_harness(stage_dir, h, spec, extra_kani=(), playback=False, log_dir=None)
 # ----------------------------------------------------------------------------------------
 # native replay of a counterexample (DESIGN.md §4.8)
 # ----------------------------------------------------------------------------------------
-def replay(stage_dir, h, spec, prop, log_dir):
+def replay(stage_dir, h, spec, prop, log_dir, expect_hang=False):
     """Extract the solver's counterexample as a concrete-playback test and run it natively.
     Returns (reproduced: bool, replay_path or None, note)."""
     name = spec["name"]
@@ -439,7 +439,7 @@ def replay(stage_dir, h, spec, prop, log_dir):
             env = dict(ENV)
             env["CARGO_TARGET_DIR"] = tgt + "-pb"
             p = subprocess.run(
-                ["timeout", "-k", "10", "600"] + cmd,
+                ["timeout", "-k", "10", "240" if expect_hang else "900"] + cmd,
                 cwd=os.path.join(stage_dir, "repo"),
                 env=env,
                 stdout=subprocess.PIPE,
@@ -452,7 +452,14 @@ def replay(stage_dir, h, spec, prop, log_dir):
             ran = re.search(r"running 1 test", out) is not None
             failed = re.search(r"test result: FAILED", out) is not None or "panicked at" in out
             fired = [l for l in out.splitlines() if l.startswith("ORACLE-FAILED") or "VERIF-DEADLOCK" in l or "PROPERTY C" in l or "panicked at" in l]
-            outcomes[profile] = {"ran": ran, "failed": failed, "lines": fired[:12], "rc": p.returncode}
+            hung = ran and not failed and p.returncode in (124, 137)
+            if hung and expect_hang:
+                # the solver's counterexample is a deadlock (a lock / channel operation that can
+                # never complete); natively the real lock() / recv() blocks and the test never
+                # finishes: that IS the reproduction
+                failed = True
+                fired.append("native run hung (killed after 240 s): the blocking operation never returned")
+            outcomes[profile] = {"ran": ran, "failed": failed, "lines": fired[:12], "rc": p.returncode, "hung": hung}
             if profile == "release" and not ran and "error" in out:
                 # release playback may be unsupported by this cargo-kani; dev decides
                 outcomes[profile]["note"] = "release playback did not build"
@@ -584,7 +591,7 @@ def decide(prop, tier, seed):
     for s, r, why in violations[:3]:
         if confirmed:
             break
-        ok, rp, note = replay(st, h, s, prop, log_dir)
+        ok, rp, note = replay(st, h, s, prop, log_dir, expect_hang=bool(r.get("deadlock")))
         r["replay"] = {"reproduced": ok, "path": rp, "note": note}
         if ok:
             confirmed.append((s, r, why, rp))
